@@ -32,6 +32,9 @@ TRUSTED_BASE = [
     "correspondence harness (Python): case generators, Coq-literal printers, canonicalisers",
     "hand-written Gallina models of the Python algorithms, tied to /repo only by the correspondence run",
     "CPython + third-party libraries the code calls (float/int/datetime/rfc3986/lxml/json) enter as oracle answers computed on the concrete inputs",
+    "statelessness: the models are pure functions of their arguments; that the modelled Python functions keep no state between calls or objects is an assumption, exercised (not proved) by the repeat/reuse phases of the harnesses",
+    "thorough tier: coqchk -o re-checks the compiled cone independently and must report no axioms, no type-in-type, no unsafe fixpoints, no assumed positivity",
+    "no Axiom/Parameter/Admitted in the development (scanned on every run); Print Assumptions of every property theorem is recorded under axioms_per_property_theorem",
 ]
 
 
@@ -380,6 +383,20 @@ class Ctx:
             for n, a in zip(pnames, ax):
                 self.axioms[n] = a
             self.discharged = self.obligations
+            if self.tier == "thorough":
+                # independent re-check of the compiled cone with coqchk, and its axiom summary
+                mod = "MP." + prop_file[len("theories/"):-2].replace("/", ".")
+                rc3, out3 = sh(["coqchk", "-silent", "-o", "-Q", "theories", "MP", mod], cwd=COQ, timeout=2400)
+                self.checker_cmds.append(f"cd coq && coqchk -silent -o -Q theories MP {mod}")
+                summary = out3[out3.find("CONTEXT SUMMARY"):] if "CONTEXT SUMMARY" in out3 else out3[-600:]
+                self.extra["coqchk"] = " ".join(summary.split())
+                m = re.search(r"\* Axioms:(.*?)\* Constants/Inductives relying on type-in-type", summary, flags=re.S)
+                axioms_txt = " ".join(m.group(1).split()) if m else "?"
+                if rc3 != 0 or axioms_txt != "<none>" or "type-in-type: <none>" not in " ".join(summary.split()) \
+                        or "unsafe (co)fixpoints: <none>" not in " ".join(summary.split()) \
+                        or "positivity is assumed: <none>" not in " ".join(summary.split()):
+                    self.fail("proof:coqchk", f"coqchk does not report a clean context: {axioms_txt}",
+                              {"kind": "broken-proof", "coqchk": summary[-1500:]}, concrete=False)
             return True
 
     broken = None
